@@ -551,6 +551,24 @@ func (i *Interpreter) ExecuteRoute(route *Route, request *Request) (*Response, e
 		}
 	}
 
+	// A declared input type with required fields cannot be met by an absent
+	// body, nor by a body that is not a JSON object: reject the request
+	// instead of running the route with input = null.
+	if namedType, ok := route.InputType.(NamedType); ok {
+		if typeDef, exists := i.typeDefs[namedType.Name]; exists {
+			if body, isObject := request.Body.(map[string]interface{}); !isObject || body == nil {
+				if err := i.typeChecker.ValidateObjectAgainstTypeDef(nil, typeDef); err != nil {
+					return &Response{
+						StatusCode: 400,
+						Body: map[string]interface{}{
+							"error": fmt.Sprintf("input validation failed: %v", err),
+						},
+					}, err
+				}
+			}
+		}
+	}
+
 	// Always add request body to environment (even if nil)
 	// This ensures 'input' variable is always available in routes
 	inputValue := request.Body
